@@ -193,11 +193,11 @@ impl Recorder {
 fn record(templates_path: &str, out_path: &str) {
     let templates = read_ndjson(templates_path);
     let mut rng = Rng::new(seed_from_env());
-    let quick = tier_is_quick();
-    let n_rand = if quick { 1 } else { 3 };
+    let n_rand_misc = if tier_is_quick() { 1 } else { 4 };
     let mut rec = Recorder { out: NdWriter::create(out_path), n: 0 };
     let max_side = templates.iter().filter(|t| t["kind"] == "ctpk").map(|t| u(&t["w"]) * u(&t["h"])).max().unwrap_or(0);
     for t in &templates {
+        let n_rand = u(&t["nrand"]);
         match t["kind"].as_str().unwrap() {
             "ctpk" => {
                 let (fmt, w, h) = (u(&t["fmt"]), u(&t["w"]), u(&t["h"]));
@@ -224,7 +224,7 @@ fn record(templates_path: &str, out_path: &str) {
                 }
                 rec.ev("tex", "ctpk", "position", fmt, w, h, &p, &[], run(&p));
                 // byte lanes (RGBA8): one lane varies with the position, the others are constant
-                if b == 4 {
+                if b == 4 && n_rand > 0 {
                     for lane in 0..4 {
                         let mut p = Vec::with_capacity(w * h * 4);
                         for i in 0..w * h {
@@ -277,13 +277,13 @@ fn record(templates_path: &str, out_path: &str) {
         }
         rec.ev("rgb5a3", "decode", "all16", 101, 16384, 1, &p, &[], rgb5a3_decode(&p));
     }
-    for _ in 0..n_rand {
+    for _ in 0..n_rand_misc {
         let n = rng.range(1, 2000);
         let p = rng.bytes(2 * n);
         rec.ev("rgb5a3", "decode", "random", 101, n, 1, &p, &[], rgb5a3_decode(&p));
     }
     // palette look-up on linear indices
-    for _ in 0..(4 * n_rand) {
+    for _ in 0..(4 * n_rand_misc) {
         let npal = rng.range(1, 256);
         let n = rng.range(0, 600);
         let rgba = rng.bytes(4 * npal);
@@ -300,7 +300,7 @@ fn names_dims(t: &[Tex]) -> Value {
     Value::Array(t.iter().map(|t| json!({"name": str_to_codes(&t.name), "w": t.w, "h": t.h})).collect())
 }
 
-/// One case = one generated file: {id, c, v, file, exp:[{name,w,h}], min_ok, magic}.
+/// One case = one generated file: {id, c, v, file, exp:[{name,w,h}], min_ok, magic, reject_by}.
 /// Result: the full reading compared with exp; the outcome class of every strict prefix compared with
 /// min_ok (a prefix shorter than min_ok must be an error, none may panic); where `magic`, a damaged magic
 /// number must be an error.  Second value: the trace line {id, c, v, ok, out} for Trace_TexContainers.
@@ -367,6 +367,16 @@ fn readers_case(c: &Value) -> (Value, Value) {
                     Out::Panic(p) => problems.push(json!({"what": "magic", "k": k, "xor": d, "got": format!("panic {}", p)})),
                 }
             }
+        }
+    }
+    // readers of the other containers whose magic number the file does not carry must reject it
+    for r in c["reject_by"].as_array().unwrap() {
+        let r = r.as_str().unwrap();
+        magic_cases += 1;
+        match read_container(r, &file) {
+            Out::Err(_) => {}
+            Out::Ok(_) => problems.push(json!({"what": "foreign", "reader": r, "got": "Ok"})),
+            Out::Panic(p) => problems.push(json!({"what": "foreign", "reader": r, "got": format!("panic {}", p)})),
         }
     }
     (
